@@ -117,17 +117,28 @@ MEMBASE = 0x10000
 MEMLEN = 0x4000
 
 
+EXTRA_WINDOWS = []        # [(address, length)]: further concrete windows (both ends of the address space for x86 / x64)
+
+
 def make_state(cpu, E, mapper, regvals, membytes):
     s = mapper()
     for r, v in regvals:
         s[r] = E.cst(v, r.size)
     s.mmap.write(MEMBASE, membytes)
+    for a, n in EXTRA_WINDOWS:
+        s.mmap.write(a, bytes((b ^ 0x5A) for b in membytes[:n]))
     return s
 
 
 def flat_mem(mm, E):
-    """MEMBASE..MEMBASE+MEMLEN as a list of byte values / None (symbolic or undefined)"""
+    """MEMBASE..MEMBASE+MEMLEN (and the extra windows) as a list of byte values / None (symbolic or undefined)"""
     out = []
+    for a, n in EXTRA_WINDOWS:
+        try:
+            for p in mm.read(a, n):
+                out += list(p) if isinstance(p, (bytes, bytearray)) else [None] * (p.size // 8)
+        except Exception:
+            out += [None] * n
     try:
         parts = mm.read(MEMBASE, MEMLEN)
     except Exception:
@@ -144,7 +155,7 @@ def flat_mem(mm, E):
 
 def pointer_accesses(m, s0):
     """[(base rendering, concrete address, nbytes, wraps)] of every memory access (store or load) in the symbolic map m;
-    wraps: base + displacement leaves the address space, or the access runs over its end"""
+    wraps: the access (at base + displacement modulo the address space) runs over the end of the address space"""
     acc = []
 
     def walk(e):
@@ -154,7 +165,7 @@ def pointer_accesses(m, s0):
             try:
                 a = s0(e.a.base)
                 if a._is_cst:
-                    acc.append((str(e.a.base), (a.v + e.a.disp) & X.mask(a.size), max(1, e.size // 8), not (0 <= a.v + e.a.disp <= (1 << a.size) - max(1, e.size // 8))))
+                    acc.append((str(e.a.base), (a.v + e.a.disp) & X.mask(a.size), max(1, e.size // 8), ((a.v + e.a.disp) & X.mask(a.size)) + max(1, e.size // 8) > (1 << a.size)))
             except Exception:
                 pass
             walk(e.a.base)
@@ -183,7 +194,7 @@ def pointer_accesses(m, s0):
             try:
                 a = s0(loc.base)
                 if a._is_cst:
-                    acc.append((str(loc.base), (a.v + loc.disp) & X.mask(a.size), max(1, v.size // 8), not (0 <= a.v + loc.disp <= (1 << a.size) - max(1, v.size // 8))))
+                    acc.append((str(loc.base), (a.v + loc.disp) & X.mask(a.size), max(1, v.size // 8), ((a.v + loc.disp) & X.mask(a.size)) + max(1, v.size // 8) > (1 << a.size)))
             except Exception:
                 pass
         walk(v)
@@ -211,6 +222,11 @@ def seq_worker(args):
     dis = cpu.disassemble
     specs, _ = c04.mode_specs(dis, k)
     regs = cpu_registers(cpu)
+    del EXTRA_WINDOWS[:]
+    if name == "x86_x86":
+        EXTRA_WINDOWS.extend([(0, 96), ((1 << 32) - 96, 96)])
+    elif name == "x64_x64":
+        EXTRA_WINDOWS.extend([(0, 96), ((1 << 64) - 96, 96)])
     rng = random.Random(seed)
     res = {"name": name, "mode": k, "n": 0, "compared": 0, "skipped_raise": 0, "finds": {}, "samples": [], "nontrivial": 0}
     if not regs or not hasattr(cpu.disassemble.iclass, "_uarch"):
@@ -309,6 +325,56 @@ def seq_worker(args):
                         seq.append(i)
                 if len(seq) == 3:
                     work.append((seq, drng, ((True, True),)))
+        # (E) x86 / x64: the pointer register is changed by a constant inside the block before it is used (the block map keeps
+        # base + accumulated displacement, the stepwise route wraps the register each time); states near both ends of the
+        # address space are generated below
+        if name in ("x86_x86", "x64_x64"):
+            rexw = b"\x48" if name == "x64_x64" else b""
+            adj = [rexw + b"\x83\xc3" + bytes([k]) for k in (4, 8, 0x7c)] + [rexw + b"\x83\xeb" + bytes([k]) for k in (4, 8)] + \
+                  ([b"\x43", b"\x4b"] if name == "x86_x86" else [b"\x48\xff\xc3", b"\x48\xff\xcb"])
+            acc_ = [b"\x89\x03", b"\x8b\x0b", b"\x89\x43\x04", b"\x8b\x4b\xfc", b"\x88\x03", b"\x66\x89\x43\x02"]
+            erng = random.Random(777 + len(name))
+            for _ in range(60):
+                code = [erng.choice(adj)] + [erng.choice(adj + acc_ + acc_) for _k in range(erng.randrange(1, 4))] + [erng.choice(acc_)]
+                seq = []
+                for b in code:
+                    isa.reset_pending(dis)
+                    try:
+                        i = dis(b + b"\x90" * ml)
+                    except Exception:
+                        i = None
+                    isa.reset_pending(dis)
+                    if i is not None:
+                        seq.append(i)
+                if len(seq) == len(code):
+                    work.append((seq, erng, ((True, True),)))
+        # (F) big-endian data: a word is loaded and, still symbolic in the block map, sliced at bit positions that are not byte
+        # boundaries (masks like 0x1f, shifts by 3) - SPARC and PowerPC encodings written by hand
+        be_words = []
+        if name == "sparc_v8":
+            for imm in (0x1f, 0x3ff, 0xfff, 7, 0x1ff, 0xff):
+                for op3 in (0x01, 0x25, 0x26):                       # and, sll, srl
+                    for ld3 in (0x00, 0x02, 0x01):                   # ld, lduh, ldub
+                        ld = (3 << 30) | (9 << 25) | (ld3 << 19) | (8 << 14) | (1 << 13) | 4
+                        alu = (2 << 30) | (10 << 25) | (op3 << 19) | (9 << 14) | (1 << 13) | (imm if op3 == 1 else imm & 31)
+                        be_words.append([ld, alu])
+        if name == "ppc32_cpu":
+            for ui in (0x1f, 0x3ff, 0xfff, 7, 0x1ff, 0xff):
+                be_words.append([0x80000000 | (9 << 21) | (8 << 16) | 4, 0x70000000 | (9 << 21) | (10 << 16) | ui])
+        frng = random.Random(991)
+        for ws in be_words:
+            seq = []
+            for w in ws:
+                isa.reset_pending(dis)
+                try:
+                    i = dis(w.to_bytes(4, "big"))
+                except Exception:
+                    i = None
+                isa.reset_pending(dis)
+                if i is not None:
+                    seq.append(i)
+            if len(seq) == len(ws):
+                work.append((seq, frng, ((True, True),)))
         for seq, rng, cfgs in work:
             for cfg in cfgs:
                 conf.Cas.noaliasing, conf.Cas.memtrace = cfg
@@ -320,7 +386,8 @@ def seq_worker(args):
                         # not overlap: give every register its own 256-byte cell
                         v = (MEMBASE + 0x100 * (ri % 60) + 0x40 + 8 * rng.randrange(0, 8)) if cfg[0] else (MEMBASE + 0x100 + 8 * rng.randrange(0, 40))
                     else:
-                        v = 0 if c < 0.6 else X.mask(r.size) if c < 0.7 else rng.getrandbits(r.size)
+                        v = 0 if c < 0.6 else X.mask(r.size) if c < 0.7 else ((1 << r.size) - 4 * rng.randrange(1, 4)) if c < 0.78 else \
+                            4 * rng.randrange(0, 3) if c < 0.84 else rng.getrandbits(r.size)
                     regvals.append((r, v & X.mask(r.size)))
                 membytes = bytes(rng.getrandbits(8) for _ in range(MEMLEN))
                 res["n"] += 1
@@ -418,7 +485,7 @@ def seq_worker(args):
                             wrapped = False
                         if wrapped:
                             # the concrete memory is a flat unbounded map: an access that runs over the end of the address
-                            # space, or base+displacement wrapping around it, lands on other cells than on the symbolic route
+                            # space continues at 2^n there, and at 0 for a later access whose address wrapped
                             key = "%s|access-wraps-around-the-address-space" % name
                         only_mem = all(d[0].startswith("mem") for d in diffs) or (minimal is not None and route_differs(minimal) == "mem")
                         if not cfg[1] and only_mem:
